@@ -106,6 +106,16 @@ where
             ("swap e <-> s".into(), "field:swap", s.clone(), e.clone(), v.clone()), ("swap s <-> v".into(), "field:swap", e.clone(), v.clone(), s.clone()), ("swap e <-> v".into(), "field:swap", v.clone(), s.clone(), e.clone()),
         ];
         for (name, cls, e2, s2, v2) in field_edits { neg(name, cls, mk_sig::<CS>(&e2, &s2, &v2), &bases, &m, &w.pk); }
+        // two components edited together: a negated exponent with the inverted v satisfies the equation ((v^-1)^(-e) = v^e)
+        { let vinv = v.clone().invert(&w.pk.N).unwrap_or_default();
+          neg("e := -e, v := v^-1 mod N".into(), "field:negated-e-with-inverted-v", mk_sig::<CS>(&(-e.clone()), &s, &vinv), &bases, &m, &w.pk);
+          neg("e := -e".into(), "field:e", mk_sig::<CS>(&(-e.clone()), &s, &v), &bases, &m, &w.pk);
+          neg("v := v^-1 mod N".into(), "field:v", mk_sig::<CS>(&e, &s, &vinv), &bases, &m, &w.pk);
+          neg("v := v + N".into(), "field:v-other-representative", mk_sig::<CS>(&e, &s, &(v.clone() + &w.pk.N)), &bases, &m, &w.pk);
+          neg("s := -s, with v adjusted by b^(-2s/e)? (not derivable) -> s := -s".into(), "field:s", mk_sig::<CS>(&e, &(-s.clone()), &v), &bases, &m, &w.pk); }
+        // a LONGER vector than the signed one, with the same bases (the extra attributes have no base): must not verify
+        if !r.single_api { for extra in [Integer::from(0), Integer::from(1), A[3].1.clone()] { let mut m2 = m.clone(); m2.push(extra.clone()); neg(format!("vector extended by {} (no base for it)", sd(&extra)), "attribute-count", Some(sig.clone()), &bases, &m2, &w.pk); } }
+        if n >= 2 && !r.single_api { let m2 = m[..n - 1].to_vec(); if m[n - 1] != 0 { neg("vector truncated by its last attribute".into(), "attribute-count", Some(sig.clone()), &bases, &m2, &w.pk); } }
         let fresh = Bases(other.bases.0[..n].iter().map(|x| x.clone() % &w.pk.N).collect());
         // bases are only bound where the attribute is non-zero (a^0 = 1 for every base)
         if m.iter().any(|x| *x != 0) { neg("fresh bases".into(), "other-bases", Some(sig.clone()), &fresh, &m, &w.pk); }
